@@ -2,12 +2,15 @@
 EXTENDS IntegrationExact, Json, IOUtils, SequencesExt, FiniteSets
 Bounds == {-1, 0, 1, 2}
 Quad == {[kind |-> "quad", k |-> k, a |-> a, b |-> b, den |-> k + 1] : k \in 0..22, a \in Bounds, b \in Bounds}
+\* half-infinite intervals, both orders of the bounds, finite bound on both sides of 0
+HalfInf == {[kind |-> "halfinf", side |-> sd, m |-> m, a |-> a, swapped |-> w, k |-> m, den |-> HalfInfiniteDen(sd, m, a)] :
+              sd \in {"up", "down"}, m \in {2, 3, 4}, a \in -2..2, w \in {0, 1}}
 Order(s) == IF s = "RK2" THEN 2 ELSE IF s = "RK4" THEN 4 ELSE IF s = "RK42" THEN 4 ELSE 5
 Fixed == {[kind |-> "rkfixed", scheme |-> s, k |-> k, ti |-> i[1], tf |-> i[2], m |-> m, den |-> k + 1] :
             s \in {"RK2", "RK4"}, k \in 0..3, i \in {<<0, 1>>, <<0, 4>>, <<-1, 2>>}, m \in 0..4}
 Adaptive == {[kind |-> "rkadaptive", scheme |-> s, k |-> k, ti |-> i[1], tf |-> i[2], j |-> j, den |-> k + 1] :
             s \in {"RK42", "RK54"}, k \in 0..4, i \in {<<0, 1>>, <<0, 4>>, <<-1, 2>>, <<1, 2>>, <<3, 5>>, <<-3, -1>>}, j \in 1..24}
-Cases == Quad \cup {c \in Fixed \cup Adaptive : c.k < Order(c.scheme)}
+Cases == Quad \cup HalfInf \cup {c \in Fixed \cup Adaptive : c.k < Order(c.scheme)}
 Number(S) == LET s == SetToSeq(S) IN [i \in 1..Len(s) |-> [id |-> i] @@ s[i]]
 ASSUME ndJsonSerialize(IOEnv.OUT, Number(Cases))
 ASSUME PrintT(<<"GEN", Cardinality(Cases)>>)
